@@ -137,3 +137,33 @@ __CPROVER_assigns(R(r)->seed)
 ;
 void h_getNext(void) { void *r; w_getNext(r); VERIF_CANARY; }
 #endif
+
+/* ------------------------------------------------------------ A* turn pruning is invariant under transposing the scene */
+#if defined(JOB_prune_symmetry)
+/* C20: "mirroring or quarter-turning a routing scene leaves every route's cost unchanged".  The orthogonal turn-pruning
+ * block of AStarPathPrivate::search treats the two dimensions by two hand-written branches; the decision to prune an edge
+ * must be the same for a search state and for its transpose (x <-> y everywhere, X*_ flags <-> Y*_ flags). */
+struct PACKED Pt { double x; double y; unsigned int id; unsigned short vn; };
+struct PACKED VertID { unsigned int objID; unsigned short vn; unsigned short props; };
+struct PACKED l24 { void *a, *b; size_t n; };
+struct PACKED VertInf { void *_router; struct VertID id; struct Pt point; void *lstPrev, *lstNext, *shPrev, *shNext; struct l24 visList; unsigned int visListSize;
+                        struct l24 orthogVisList; unsigned int orthogVisListSize; struct l24 invisList; unsigned int invisListSize; void *pathNext;
+                        void *m_orthogonalPartner; void *m_treeRoot; double sptfDist; unsigned int visDirections; struct l24 aStarDoneNodes; struct l24 aStarPendingNodes;
+                        unsigned int orthogVisPropFlags; };
+_Bool w_prune(_Bool isOrthogonal, _Bool isDummy, void *best, void *next, void *prev, void *src, void *endPoints);
+#define TFLAGS(f) ((((f) & 0x0fu) << 4) | (((f) >> 4) & 0x0fu) | ((f) & ~0xffu))
+static void transpose(struct Pt *p) { double t = p->x; p->x = p->y; p->y = t; }
+void h_prune_symmetry(void)
+{
+    struct VertInf best, next, prev, src, tbest, tnext, tprev, tsrc; struct Pt ep[2], tep[2]; struct vec eps, teps; _Bool orth, dummy, hasprev;
+    tbest = best; tnext = next; tprev = prev; tsrc = src; tep[0] = ep[0]; tep[1] = ep[1];
+    transpose(&tbest.point); transpose(&tnext.point); transpose(&tprev.point); transpose(&tsrc.point); transpose(&tep[0]); transpose(&tep[1]);
+    tbest.orthogVisPropFlags = TFLAGS(best.orthogVisPropFlags);
+    size_t ne; __CPROVER_assume(ne <= 2);
+    eps.d = ep; eps.n = ne; eps.cap = 2; teps.d = tep; teps.n = ne; teps.cap = 2;
+    _Bool r1 = w_prune(orth, dummy, &best, &next, hasprev ? &prev : (void *)0, &src, &eps);
+    _Bool r2 = w_prune(orth, dummy, &tbest, &tnext, hasprev ? &tprev : (void *)0, &tsrc, &teps);
+    __CPROVER_assert(r1 == r2, "SPEC A* turn pruning: an edge is pruned for a search state iff it is pruned for the transposed state (x and y exchanged)");
+    VERIF_CANARY;
+}
+#endif
